@@ -68,7 +68,11 @@ let () =
         let len = int_of_z (diag_len (z_of_int mm) (z_of_int !kw)) in
         let bs = diag_base e zl zu (z_of_int mm) zoff (z_of_int !kw) in
         List.iter (fun t -> let p = sb + int_of_z bs + t * (off + 1) in if p >= 0 && p < Array.length d4 then d4.(p) <- -7) (range 0 len);
-        sec (Printf.sprintf "UW%d" !kw) (rows e (zl, zu) (get d4) n)
+        sec (Printf.sprintf "UW%d" !kw) (rows e (zl, zu) (get d4) n);
+        let d5 = Array.copy data in
+        List.iter (fun i -> List.iter (fun (j, loc) -> let k = sb + int_of_z loc in if k >= 0 && k < Array.length d5 then d5.(k) <- 2000 + 10 * i + int_of_z j)
+          (assign_row_targets e zl zu (z_of_int mm) zoff (z_of_int i))) (range 0 mm);
+        sec "UA" (rows e (zl, zu) (get d5) n)
       end;
       sec "E" (List.map (fun x -> 3 * x) m);
       sec "F" (List.map2 ( + ) t m);
